@@ -243,12 +243,28 @@ fn drive<I: Iterator<Item = ChessMove> + Clone>(ctx: &mut Ctx, s: &Session, mut 
                 ctx.stats.bump("c10.ops.remove_move");
             }
             9 => {
-                // clone, then continue on either copy
-                let c = op(Op::Iterate, || it.clone());
-                if ctx.tape.choose(2) == 0 {
-                    it = c;
+                // clone, then continue on either copy - or a re-used generator (a copy that was
+                // run to its end under the full mask, its cursor past everything) takes over the
+                // state of the live one through clone_from and is continued instead
+                let mut c = op(Op::Iterate, || it.clone());
+                match ctx.tape.choose(3) {
+                    0 => {
+                        it = c;
+                        trace.push("clone".into());
+                    }
+                    1 => trace.push("clone (dropped)".into()),
+                    _ => {
+                        op(Op::Iterate, || {
+                            (ops.set_mask)(&mut c, sut::bb(!0));
+                            while c.next().is_some() {}
+                            c.clone_from(&it);
+                        });
+                        it = c;
+                        trace.push("clone_from(into an exhausted generator)".into());
+                        ctx.stats.bump("c10.ops.clone_from");
+                        last_mut = "clone_from";
+                    }
                 }
-                trace.push("clone".into());
                 ctx.stats.bump("c10.ops.clone");
             }
             10 => {
